@@ -258,3 +258,23 @@ func MappedNeighbours() [][16]byte {
 	}
 	return out
 }
+
+// ByteSweep returns, for every template, every string obtained by replacing
+// one byte by any of the 256 byte values or inserting any byte value at any
+// position: whatever a hand-written scanner does with a byte class (ranges
+// compared with off-by-one bounds, arithmetic folds, table lookups), some
+// template position exercises it with every byte.
+func ByteSweep(templates []string) []string {
+	var out []string
+	for _, t := range templates {
+		for pos := 0; pos <= len(t); pos++ {
+			for b := 0; b < 256; b++ {
+				out = append(out, t[:pos]+string([]byte{byte(b)})+t[pos:])
+				if pos < len(t) && t[pos] != byte(b) {
+					out = append(out, t[:pos]+string([]byte{byte(b)})+t[pos+1:])
+				}
+			}
+		}
+	}
+	return out
+}
